@@ -148,43 +148,58 @@ def splitOp (t : Nat) (n : Int) (acc : List CigarOp) : Outcome (List CigarOp) :=
 termination_by n.toNat
 decreasing_by simp only [maxOpLen] at *; omega
 
-theorem length_dropWhile_le {α} (p : α → Bool) (l : List α) : (l.dropWhile p).length ≤ l.length := by
-  induction l with
-  | nil => simp
-  | cons a t ih =>
-    simp only [List.dropWhile_cons]
-    split
-    · simp only [List.length_cons]; omega
-    · exact Nat.le_refl _
-
-/-- the body of `sam.ParseCigar` after the `*` test (with the repair of fixes/C11-2: digits that are
-not followed by an operation are an error) -/
-def parseOps (b : Bytes) (acc : List CigarOp) : Outcome (List CigarOp) :=
-  if b.isEmpty then ok acc
-  else
-    match hr : b.dropWhile isDigit with
-    | [] => err
-    | c :: rest =>
-      match atoi (b.takeWhile isDigit) with
-      | ok n =>
-        if opLookup c = lastCigar then err
-        else
-          match splitOp (opLookup c) n acc with
-          | ok acc' => parseOps rest acc'
-          | err => err
-          | .panic s => .panic s
+/-- the inner scan of `ParseCigar`: `for j := i; j < len(b); j++ { if b[j] < '0' || '9' < b[j] { …; break } }`.
+`some j`: the first position at or after `j₀` that holds no digit; `none`: the text ends first. -/
+def scanOp (b : Bytes) : (fuel : Nat) → (j : Nat) → Outcome (Option Nat)
+  | 0, _ => .panic "sam.ParseCigar:model out of fuel"
+  | fuel + 1, j =>
+    if b.length ≤ j then ok none
+    else
+      match index "sam.ParseCigar:b[j]" b j with
+      | ok c => if isDigit c then scanOp b fuel (j + 1) else ok (some j)
       | err => err
       | .panic s => .panic s
-termination_by b.length
-decreasing_by
-  have h1 := length_dropWhile_le isDigit b
-  rw [hr] at h1
-  simp only [List.length_cons] at h1
-  omega
 
-/-- `sam.ParseCigar` -/
+/-- the outer loop of `sam.ParseCigar` with its explicit `b[j]`, `b[i:j]` (with the repair of fixes/C11-2:
+digits that are not followed by an operation are an error).  Fuel `len(b)+1` always suffices
+(`Hts.Props.C11.parseCigar_total`); running out of it is a panic of the model. -/
+def parseOpsFrom (b : Bytes) : (fuel : Nat) → (i : Nat) → List CigarOp → Outcome (List CigarOp)
+  | 0, _, _ => .panic "sam.ParseCigar:model out of fuel"
+  | fuel + 1, i, acc =>
+    if b.length ≤ i then ok acc
+    else
+      match scanOp b (b.length + 1) i with
+      | ok none => err
+      | ok (some j) =>
+        match slice "sam.ParseCigar:b[i:j]" b i j with
+        | ok ds =>
+          match atoi ds with
+          | ok n =>
+            match index "sam.ParseCigar:cigarOpTypeLookup[b[j]]" b j with
+            | ok c =>
+              if opLookup c = lastCigar then err
+              else
+                match splitOp (opLookup c) n acc with
+                | ok acc' => parseOpsFrom b fuel (j + 1) acc'
+                | err => err
+                | .panic s => .panic s
+            | err => err
+            | .panic s => .panic s
+          | err => err
+          | .panic s => .panic s
+        | err => err
+        | .panic s => .panic s
+      | err => err
+      | .panic s => .panic s
+
+/-- `sam.ParseCigar`: `if len(b) == 1 && b[0] == '*' { return nil, nil }`, then the loops -/
 def parseCigar (b : Bytes) : Outcome (List CigarOp) :=
-  if b = [42] then ok [] else parseOps b []
+  if b.length = 1 then
+    match index "sam.ParseCigar:b[0]" b 0 with
+    | ok c => if c = 42 then ok [] else parseOpsFrom b (b.length + 1) 0 []
+    | err => err
+    | .panic s => .panic s
+  else parseOpsFrom b (b.length + 1) 0 []
 
 /-! ### CIGAR accessors that index -/
 
@@ -200,6 +215,28 @@ value); `Hts.Model.Coord.consumes` is the same function -/
 def consumesGo (t : Nat) : Outcome (Int × Int) :=
   if Hts.Model.Coord.consumeTab.length ≤ t then ok (0, 0)
   else index "sam.CigarOpType.Consumes:consume[ct]" Hts.Model.Coord.consumeTab t
+
+/-- `Cigar.Lengths` with `Consumes` as the explicit table look-up -/
+def lengthsGo (ref read : Int) : List CigarOp → Outcome (Int × Int)
+  | [] => ok (ref, read)
+  | co :: rest =>
+    match consumesGo co.typ with
+    | ok (q, r) => lengthsGo (if co.typ ≠ 9 then ref + co.len * r else ref) (read + co.len * q) rest
+    | err => err
+    | .panic s => .panic s
+
+/-- the loop of `Record.End` with `Consumes` as the explicit table look-up -/
+def endGo (pos e : Int) : List CigarOp → Outcome Int
+  | [] => ok e
+  | co :: rest =>
+    match consumesGo co.typ with
+    | ok (_, r) => endGo (pos + co.len * r) (if e < pos + co.len * r then pos + co.len * r else e) rest
+    | err => err
+    | .panic s => .panic s
+
+/-- `Record.End` (and with it `Len` = `End() - Pos`, `Bin` = `BinFor(Pos, End())`, which add no partial operation) -/
+def recordEndGo (unmapped : Bool) (pos : Int) (cigar : List CigarOp) : Outcome Int :=
+  if unmapped || cigar.isEmpty then ok (pos + 1) else endGo pos pos cigar
 
 /-- the soft-clip test of `Cigar.IsValid`: `c[i-1].Type() != CigarHardClipped && c[i+1].Type() != CigarHardClipped` -/
 def clipCheck (c : List CigarOp) (i : Nat) : Outcome Bool := do
@@ -434,8 +471,16 @@ def samAuxString (a : Bytes) : Outcome Unit := do
     if isSlice then pure () else .panic "sam.samAux.String:reflect.Value.Len on a non-slice"
   else pure ()
 
+/-- `a.matches(tag)` on the aux side: `a[1] == tag[1] && a[0] == tag[0]` (`Record.Tag`, which checks
+`len(tag) >= 2` itself) -/
+def auxMatches (a : Bytes) : Outcome Unit := do
+  let _ ← index "sam.Aux.matches:a[1]" a 1
+  let _ ← index "sam.Aux.matches:a[0]" a 0
+  pure ()
+
 /-- everything the accessor sweep does with one aux field -/
 def auxSweep (a : Bytes) : Outcome Unit := do
+  let _ ← auxMatches a
   let _ ← auxTag a
   let _ ← auxType a
   let _ ← auxValue a
